@@ -788,28 +788,37 @@ def unit_criteria(inj, scratch):
                        'cmp_at_numbers / cmp_at_datetimes / cmp_at_direct (parse_filesize, parse_datetime, T::cmp), Expr::contains_numeric/datetime')
     recs.append(r); dropped.append(d)
     keyfns = ''
-    for kf in ['cmp_at_numbers', 'cmp_at_direct']:
+    for kf in ['cmp_at_numbers', 'cmp_at_direct', 'numeric_key']:
         kit = s.item('fn', kf, (cimpl['open'], cimpl['close']))
         kb = dedent(s.text[kit['open']:kit['end']])
-        keyfns += f'    pub fn {kf}(&self, other: &Self, i: usize) -> Ordering {kb}\n'
+        if kf == 'numeric_key':
+            ksig = re.sub(r'\s+', ' ', s.text[kit['sig_start']:kit['open']]).strip()
+            if ksig != 'fn numeric_key(value: &T) -> f64':
+                raise AnchorLost(f'Criteria::numeric_key: signature changed: {ksig!r}')
+            keyfns += f'    pub fn numeric_key(value: &KVal) -> f64 {kb}\n'
+        else:
+            keyfns += f'    pub fn {kf}(&self, other: &Self, i: usize) -> Ordering {kb}\n'
         r, d = frag_record(f'FragKey::{kf}', 'src/util/mod.rs', f'impl Criteria / fn {kf} (whole body, verbatim, as a method of shim type FragKey)', kb, kb,
-                           ['values: Vec<T> -> Vec<KVal> where KVal is a number whose to_string() is a shim text; parse_filesize on that text returns the number'],
+                           ['values: Vec<T> -> Vec<KVal> where KVal is a size or another number in quarters whose to_string() is a shim text; parse_filesize on that text returns the size or None, parse::<f64>() its value'],
                            'parse_filesize (C14), the real Display of T')
         recs.append(r); dropped.append(d)
     text = f'''pub mod criteria {{
 use super::*;
 use std::cmp::Ordering;
 // ---- per-key comparison bodies on a shim value type ----
-#[derive(Clone, Copy, PartialEq, Eq, PartialOrd, Ord)] pub struct KVal(pub u64);
-pub struct KStr(pub u64);
-impl KVal {{ pub fn to_string(&self) -> KStr {{ KStr(self.0) }} }}
-impl KStr {{ pub fn parse<T: FromU64>(&self) -> Result<T, ()> {{ Ok(T::from_u64(self.0)) }} }}
-pub trait FromU64 {{ fn from_u64(v: u64) -> Self; }}
-impl FromU64 for f32 {{ fn from_u64(v: u64) -> f32 {{ v as f32 }} }}
-impl FromU64 for f64 {{ fn from_u64(v: u64) -> f64 {{ v as f64 }} }}
-impl FromU64 for u64 {{ fn from_u64(v: u64) -> u64 {{ v }} }}
-impl FromU64 for i64 {{ fn from_u64(v: u64) -> i64 {{ v as i64 }} }}
-pub fn parse_filesize(s: &KStr) -> Option<u64> {{ Some(s.0) }}
+// a key value is a size (a non-negative integer, what a numeric column prints) or another number in quarters (what an expression may
+// print: negative or fractional; `Real(q)` stands for q / 4 and is only used for values that are not sizes)
+#[derive(Clone, Copy, PartialEq, Eq, PartialOrd, Ord)] pub enum KVal {{ Size(u64), Real(i32) }}
+pub struct KStr(pub KVal);
+impl KVal {{ pub fn to_string(&self) -> KStr {{ KStr(*self) }} }}
+impl KStr {{ pub fn parse<T: FromKey>(&self) -> Result<T, ()> {{ T::from_key(self.0) }} }}
+pub trait FromKey: Sized {{ fn from_key(v: KVal) -> Result<Self, ()>; }}
+impl FromKey for f32 {{ fn from_key(v: KVal) -> Result<f32, ()> {{ Ok(match v {{ KVal::Size(n) => n as f32, KVal::Real(q) => q as f32 / 4.0 }}) }} }}
+impl FromKey for f64 {{ fn from_key(v: KVal) -> Result<f64, ()> {{ Ok(match v {{ KVal::Size(n) => n as f64, KVal::Real(q) => q as f64 / 4.0 }}) }} }}
+impl FromKey for u64 {{ fn from_key(v: KVal) -> Result<u64, ()> {{ match v {{ KVal::Size(n) => Ok(n), KVal::Real(_) => Err(()) }} }} }}
+impl FromKey for i64 {{ fn from_key(v: KVal) -> Result<i64, ()> {{ match v {{ KVal::Size(n) => Ok(n as i64), KVal::Real(q) if q % 4 == 0 => Ok((q / 4) as i64), _ => Err(()) }} }} }}
+// parse_filesize: a size is its number; a negative or fractional text is not a size (C14.whole.*)
+pub fn parse_filesize(s: &KStr) -> Option<u64> {{ match s.0 {{ KVal::Size(n) => Some(n), KVal::Real(_) => None }} }}
 pub struct FragKey {{ pub values: Vec<KVal> }}
 impl FragKey {{
 {keyfns}
